@@ -125,3 +125,16 @@ Proof.
   intros r. rewrite call_nested_fits; [|reflexivity | cbn [err_data_fits]; rewrite H2; exact F2].
   rewrite ErrsProofs.call_jrpc, H2. reflexivity.
 Qed.
+
+Example transit_is_wire_round_trip_nonvacuous :
+  let w := {| we_code := 7%Z; we_msg := [97; 255]; we_data := [32; 91; 34; 60; 34; 93] |} in
+  id_rt' [49] /\ int32_ok (we_code w) /\
+  Errs.wire_data (we_data w) = Some [91; 34; 92; 117; 48; 48; 51; 99; 34; 93] /\
+  Json.valid (we_data w) = true /\ data_fits [91; 34; 92; 117; 48; 48; 51; 99; 34; 93] = true /\
+  exists b, enc_msg (err_rsp [49] w) = Some b /\
+            j_error (parse_member b) = Some {| we_code := 7%Z; we_msg := [97; 239; 191; 189]; we_data := [91; 34; 92; 117; 48; 48; 51; 99; 34; 93] |}.
+Proof.
+  cbv zeta. split; [right; reflexivity|]. split; [unfold int32_ok; cbn; split; discriminate|].
+  split; [vm_compute; reflexivity|]. split; [vm_compute; reflexivity|]. split; [vm_compute; reflexivity|].
+  eexists. split; [vm_compute; reflexivity|]. vm_compute. reflexivity.
+Qed.
